@@ -361,6 +361,7 @@ func (o *ObjectSchema) validateMapTypesCompatibility(data map[string]any) error 
 		if property.Required() && data[k] == nil {
 			return &ConstraintError{
 				Message: fmt.Sprintf("error while validating fields of objects %s, could not find required field %s", o.ReflectedType().String(), k),
+				Path:    []string{k},
 			}
 		}
 	}
@@ -434,6 +435,7 @@ func (o *ObjectSchema) validateRawCompatibility(typeOrData any) error {
 	if err != nil {
 		return &ConstraintError{
 			Message: fmt.Sprintf("%T is not a valid data type or schema for an object schema (%s)", typeOrData, err),
+			Path:    constraintErrorPath(err),
 		}
 	} else {
 		return nil
